@@ -22,7 +22,108 @@ Notation valid := (Valid.valid fmt_ok sdefs).
 Definition num_leaf (p : schema) : Prop :=
   exists c, p = Sch c [] None false None [] [] /\ c_types c = [SNumber] /\ c_ref c = None /\ c_enum c = None /\ c_default c = None /\ c_mult c = None.
 
-Definition leaf (p : schema) : Prop := str_leaf p \/ int_leaf p \/ bool_leaf p \/ num_leaf p.
+(* arrays of plain strings with any item-count limits *)
+Definition plain_str (it : schema) : Prop :=
+  exists c, it = Sch c [] None false None [] [] /\ c_types c = [SString] /\ c_ref c = None /\ c_enum c = None /\ c_default c = None /\ c_format c = None /\
+            c_min_len c = 0 /\ c_max_len c = 0 /\ c_pattern c = None.
+Definition arr_leaf (p : schema) : Prop :=
+  exists c it, p = Sch c [] None false (Some it) [] [] /\ c_types c = [SArray] /\ c_ref c = None /\ c_enum c = None /\ c_default c = None /\ plain_str it.
+
+Definition leaf (p : schema) : Prop := str_leaf p \/ int_leaf p \/ bool_leaf p \/ num_leaf p \/ arr_leaf p.
+
+(* the items of an array value in a document: none is null *)
+Definition arr_value (x : json) : Prop := forall l, x = JArr l -> forall y, In y l -> y <> JNull.
+
+Lemma plain_str_is_leaf it : plain_str it -> str_leaf it.
+Proof. intros (c & -> & Ht & Hr & He & Hd & Hf & _). exists c. repeat split; assumption. Qed.
+
+Lemma gen_arr_leaf f self sc p ty bp : arr_leaf p -> gen (S f) MInline self false p sc = Done (ty, bp) -> ty = TSlice true TString /\ bp = c_bounds (s_con p).
+Proof.
+  intros (c & it & -> & Ht & Hr & He & _ & Hit) H. cbn [Gen.gen s_con s_any_of s_all_of s_items] in H. rewrite He, Hr, Ht in H. unfold determine_type in H. rewrite Ht in H. cbn in H.
+  destruct f as [|f]; [discriminate|]. rewrite (gen_str_leaf idf cf defs f self _ it (plain_str_is_leaf it Hit)) in H. cbn in H. inversion H. split; reflexivity.
+Qed.
+
+Lemma valid_plain_str fv it y : plain_str it -> valid (S fv) it y = match y with JStr _ => true | _ => false end.
+Proof.
+  intros (c & -> & Ht & Hr & He & _ & Hf & Hmn & Hmx & Hp). cbn [Valid.valid s_con s_all_of s_any_of]. rewrite Hr, Ht, He. cbn [type_ok existsb forallb].
+  destruct y; cbn [type_matches orb andb]; try reflexivity. rewrite Hmn, Hmx, Hp, Hf. reflexivity.
+Qed.
+
+Lemma valid_arr_leaf fv p x : arr_leaf p -> valid (S (S fv)) p x =
+  match x with
+  | JArr l => len_ok (c_min_items (s_con p)) (c_max_items (s_con p)) (length l) && forallb (fun y => match y with JStr _ => true | _ => false end) l
+  | _ => false
+  end.
+Proof.
+  intros (c & it & -> & Ht & Hr & He & _ & Hit). set (g := S fv). cbn [Valid.valid s_con s_all_of s_any_of s_items]. rewrite Hr, Ht, He. cbn [type_ok existsb forallb].
+  destruct x; cbn [type_matches orb andb]; try reflexivity. rewrite ?andb_true_r, ?orb_false_r. cbn [andb]. f_equal.
+  apply forallb_ext_in. intros y _. exact (valid_plain_str fv it y Hit).
+Qed.
+
+Lemma dec_tstring fd y : dec (S fd) TString y = match y with JStr s0 => Ok (GS s0) | JNull => Ok (GS []) | _ => Err end.
+Proof. reflexivity. Qed.
+
+Lemma omap_strings fd l : (forall y, In y l -> y <> JNull) ->
+  match omap (dec (S fd) TString) l with
+  | Ok vs => forallb (fun y => match y with JStr _ => true | _ => false end) l = true /\ length vs = length l /\ forallb (slice_shaped 0) vs = true
+  | Err => forallb (fun y => match y with JStr _ => true | _ => false end) l = false
+  | _ => False
+  end.
+Proof.
+  induction l as [|y r IH]; intros Hn; [cbn [omap forallb length]; repeat split; reflexivity|].
+  assert (Hy : y <> JNull) by (apply Hn; left; reflexivity).
+  specialize (IH (fun z Hz => Hn z (or_intror Hz))).
+  cbn [omap]. rewrite dec_tstring.
+  destruct y; try contradiction; cbn [obind forallb andb]; try reflexivity.
+  destruct (omap (dec (S fd) TString) r) as [vs| | |]; cbn [obind]; try exact IH.
+  destruct IH as (H1 & H2 & H3). cbn [length forallb slice_shaped andb]. split; [exact H1|split; [f_equal; exact H2|exact H3]].
+Qed.
+
+Lemma dec_tslice fd x : dec (S (S fd)) (TSlice true TString) x =
+  match x with JNull => Ok GNil | JArr l => obind (omap (dec (S fd) TString) l) (fun vs => Ok (GL vs)) | _ => Err end.
+Proof. reflexivity. Qed.
+
+Lemma arr_field fd fv c self fname k p kv :
+  arr_leaf p -> fname <> [] ->
+  match lookup k kv with
+  | Some x => x <> JNull -> arr_value x ->
+      field_ok (dec (S (S fd))) zero (default_val env dv_fuel) kv (pair_of (make_field defs c self fname k p (TSlice true TString) (c_bounds (s_con p)))) = valid (S (S fv)) p x
+  | None => mem k (c_required c) = false ->
+      field_ok (dec (S (S fd))) zero (default_val env dv_fuel) kv (pair_of (make_field defs c self fname k p (TSlice true TString) (c_bounds (s_con p)))) = true
+  end.
+Proof.
+  intros Hleaf Hn.
+  assert (Hsingle : forall v, get_plain fname (GSt [(fname, v)]) = Some v).
+  { intros v. destruct fname as [|c0 n0]; [contradiction|]. cbn [get_plain lookup]. rewrite str_eqb_refl. reflexivity. }
+  destruct (lookup k kv) as [x|] eqn:Hl.
+  - intros Hnull Harr. rewrite (valid_arr_leaf fv p x Hleaf). destruct Hleaf as (pc & it & -> & Ht & Hr & He & Hd & Hit). unfold make_field, pair_of. cbn [s_con]. rewrite Hd.
+    assert (Hcore : forall fl vs0, f_json fl = k -> f_ty fl = TSlice true TString -> f_name fl = fname ->
+              vs0 = array_validators fname k (c_min_items pc) (c_max_items pc) 1 (TSlice true TString) ->
+              field_ok (dec (S (S fd))) zero (default_val env dv_fuel) kv (fl, vs0) =
+              match x with
+              | JArr l => len_ok (c_min_items pc) (c_max_items pc) (length l) && forallb (fun y => match y with JStr _ => true | _ => false end) l
+              | _ => false
+              end).
+    { intros fl vs0 Hj Hty Hnm ->. unfold field_ok. cbn [fst snd]. rewrite Hj, Hty, Hnm, Hl, dec_tslice.
+      destruct x as [| | | |l|]; try contradiction; try reflexivity.
+      pose proof (omap_strings fd l (Harr l eq_refl)) as Ho.
+      destruct (omap (dec (S fd) TString) l) as [vs| | |]; cbn [obind]; try contradiction.
+      + destruct Ho as (H1 & H2 & H3). rewrite H1, andb_true_r. cbn [array_validators].
+        destruct (negb (c_min_items pc =? 0) || negb (c_max_items pc =? 0)) eqn:Ek; cbn [app].
+        * unfold value_checks. cbn [forallb].
+          rewrite (varray_value (default_val env dv_fuel) None _ fname k 1 _ _ (GL vs) ltac:(discriminate) (Hsingle _)) by (cbn [slice_shaped]; exact H3).
+          cbn [levels_ok]. rewrite H2, andb_true_r. destruct (len_ok _ _ _); reflexivity.
+        * cbn [value_checks forallb]. apply orb_false_iff in Ek. destruct Ek as [E1 E2]. apply negb_false_iff in E1, E2.
+          unfold len_ok. rewrite E1, E2. reflexivity.
+      + rewrite Ho, andb_false_r. reflexivity. }
+    destruct (mem k (c_required c)).
+    + apply Hcore; reflexivity.
+    + cbn [nillable_ty]. apply Hcore; reflexivity.
+  - intros Hm. destruct Hleaf as (pc & it & -> & Ht & Hr & He & Hd & Hit). unfold make_field, pair_of. cbn [s_con]. rewrite Hd, Hm. cbn [nillable_ty].
+    unfold field_ok. cbn [fst snd f_json f_ty f_name]. rewrite Hl. cbn [zero field_validators array_validators].
+    destruct (negb (c_min_items pc =? 0) || negb (c_max_items pc =? 0)); cbn [app]; [|reflexivity]. unfold value_checks. cbn [forallb].
+    rewrite (varray_nil (default_val env dv_fuel) None _ fname k 1 _ _ ltac:(discriminate) (Hsingle _)). reflexivity.
+Qed.
 
 Lemma gen_num_leaf f self sc p : num_leaf p -> gen (S f) MInline self false p sc = Done (TFloat, c_bounds (s_con p)).
 Proof.
@@ -86,20 +187,20 @@ Fixpoint sobj (n : nat) (s : schema) : Prop :=
 Fixpoint dok (n : nat) (s : schema) (kv : list (str * json)) : Prop :=
   NoDup (map fst kv) /\
   forall k p x, In (k, p) (s_props s) -> lookup k kv = Some x ->
-    x <> JNull /\ (str_leaf p -> forall s0, x = JStr s0 -> utf8_len s0 = length s0) /\ (int_leaf p -> int_value x) /\
+    x <> JNull /\ (str_leaf p -> forall s0, x = JStr s0 -> utf8_len s0 = length s0) /\ (int_leaf p -> int_value x) /\ (arr_leaf p -> arr_value x) /\
     match n with O => True | S m => forall kv', x = JObj kv' -> sobj m p -> dok m p kv' end.
 
-(* fuel: three generator steps, two decoding steps and one validation step per level *)
+(* fuel: three generator steps, two decoding steps and one validation step per level (and one more of each for array items at the innermost level) *)
 Fixpoint fuelG (n a : nat) : nat := match n with O => S (S (S a)) | S m => S (S (S (fuelG m a))) end.
 Fixpoint fuelD (n b : nat) : nat := match n with O => S (S (S b)) | S m => S (S (fuelD m b)) end.
-Fixpoint fuelV (n c : nat) : nat := match n with O => S (S c) | S m => S (fuelV m c) end.
+Fixpoint fuelV (n c : nat) : nat := match n with O => S (S (S c)) | S m => S (fuelV m c) end.
 
 Lemma fuelD_S n b : S (fuelD n b) = fuelD n (S b).
 Proof. induction n as [|m IH]; cbn [fuelD]; [reflexivity|]. rewrite <- IH. reflexivity. Qed.
 Lemma fuelD_SS n b : exists x, fuelD n b = S (S x).
 Proof. destruct n; cbn [fuelD]; eexists; reflexivity. Qed.
-Lemma fuelV_S n c : exists x, fuelV n c = S x.
-Proof. destruct n; cbn [fuelV]; eexists; reflexivity. Qed.
+Lemma fuelV_S n c : exists x, fuelV n c = S (S x).
+Proof. induction n as [|m [x IH]]; cbn [fuelV]; [eexists; reflexivity|]. rewrite IH. eexists; reflexivity. Qed.
 
 (* the type declared for a scalar object is a named struct *)
 Lemma declared_struct_shape f self sub s scope t b :
@@ -137,11 +238,12 @@ Qed.
 
 Lemma leaf_default_none p : leaf p -> c_default (s_con p) = None.
 Proof.
-  intros [Hl|[Hl|[Hl|Hl]]].
+  intros [Hl|[Hl|[Hl|[Hl|Hl]]]].
   - destruct Hl as (c & -> & _ & _ & _ & Hd & _); exact Hd.
   - destruct Hl as (c & m & -> & _ & _ & _ & Hd & _); exact Hd.
   - destruct Hl as (c & -> & _ & _ & _ & Hd); exact Hd.
   - destruct Hl as (c & -> & _ & _ & _ & Hd & _); exact Hd.
+  - destruct Hl as (c & it & -> & _ & _ & _ & Hd & _); exact Hd.
 Qed.
 
 Lemma sobj_default_none n s k p : sobj n s -> In (k, p) (s_props s) -> c_default (s_con p) = None.
@@ -167,41 +269,46 @@ Lemma level_with_leaves f fd fv self sub s scope t bb kv (other : schema -> Prop
   (forall k p, In (k, p) (s_props s) -> leaf p \/ (other p /\ c_default (s_con p) = None)) ->
   NoDup (map fst kv) ->
   (forall k p x, In (k, p) (s_props s) -> lookup k kv = Some x ->
-     x <> JNull /\ (str_leaf p -> forall s0, x = JStr s0 -> utf8_len s0 = length s0) /\ (int_leaf p -> int_value x)) ->
+     x <> JNull /\ (str_leaf p -> forall s0, x = JStr s0 -> utf8_len s0 = length s0) /\ (int_leaf p -> int_value x) /\ (arr_leaf p -> arr_value x)) ->
   (forall fname k p ty bp, In (fname, (k, p)) (prop_names idf (s_props s)) -> In (k, p) (s_props s) -> other p -> fname <> [] ->
      gen (S f) MInline self false p (scope ++ fname) = Done (ty, bp) ->
      match lookup k kv with
-     | Some x => field_ok (dec (S (S fd))) zero (default_val env dv_fuel) kv (pair_of (make_field defs (s_con s) self fname k p ty bp)) = valid (S fv) p x
+     | Some x => field_ok (dec (S (S fd))) zero (default_val env dv_fuel) kv (pair_of (make_field defs (s_con s) self fname k p ty bp)) = valid (S (S fv)) p x
      | None => mem k (c_required (s_con s)) = false ->
                field_ok (dec (S (S fd))) zero (default_val env dv_fuel) kv (pair_of (make_field defs (s_con s) self fname k p ty bp)) = true
      end) ->
   gen (S (S (S f))) MDeclared self sub s scope = Done (t, bb) ->
-  is_ok (dec (S (S (S fd))) t (JObj kv)) = valid (S (S fv)) s (JObj kv).
+  is_ok (dec (S (S (S fd))) t (JObj kv)) = valid (S (S (S fv))) s (JObj kv).
 Proof.
   intros Hsc Hp Hty Ha Haf Np Hreq Nn Hne Hprops Nk Hval Hother Hg.
-  apply (level_exact idf cf defs fmt_ok env sdefs (S f) (S (S fd)) (S fv) self sub s scope t bb kv Hom Hsc Hp Hty Ha Haf); try assumption.
+  apply (level_exact idf cf defs fmt_ok env sdefs (S f) (S (S fd)) (S (S fv)) self sub s scope t bb kv Hom Hsc Hp Hty Ha Haf); try assumption.
   - intros k p Hin. destruct (Hprops k p Hin) as [Hl|[_ Hd]]; [exact (leaf_default_none p Hl)|exact Hd].
   - intros fname k p ty bp Hin Hgen.
     assert (Hinp : In (k, p) (s_props s)) by (unfold prop_names in Hin; apply in_combine_r in Hin; rewrite sort_props_In in Hin; exact Hin).
     pose proof (Hne _ _ Hin) as Hfn.
-    destruct (Hprops k p Hinp) as [[Hl|[Hl|[Hl|Hl]]]|[Hoth _]].
+    destruct (Hprops k p Hinp) as [[Hl|[Hl|[Hl|[Hl|Hl]]]]|[Hoth _]].
     + rewrite (gen_str_leaf idf cf defs f self _ p Hl) in Hgen. inversion Hgen; subst ty bp.
       destruct (lookup k kv) as [x|] eqn:El.
       * destruct (Hval k p x Hinp El) as [Hnn [Hstr _]]. apply str_field_present; [exact Hl|exact Hfn|exact El|split; [exact Hnn|exact (Hstr Hl)]].
       * intros Hm. apply str_field_absent; assumption.
     + rewrite (gen_int_leaf idf cf defs Hms f self _ p Hl) in Hgen. inversion Hgen; subst ty bp.
       destruct (lookup k kv) as [x|] eqn:El.
-      * destruct (Hval k p x Hinp El) as [Hnn [_ Hi]]. apply int_field_present; [exact Hl|exact Hfn|exact El|exact (Hi Hl)].
+      * destruct (Hval k p x Hinp El) as [Hnn [_ [Hi _]]]. apply int_field_present; [exact Hl|exact Hfn|exact El|exact (Hi Hl)].
       * intros Hm. apply int_field_absent; assumption.
     + rewrite (gen_bool_leaf idf cf defs f self _ p Hl) in Hgen. inversion Hgen; subst ty bp.
-      pose proof (bool_field defs fmt_ok env sdefs fd fv (s_con s) self fname k p (c_bounds (s_con p)) kv Hl Hfn) as Hb.
+      pose proof (bool_field defs fmt_ok env sdefs fd (S fv) (s_con s) self fname k p (c_bounds (s_con p)) kv Hl Hfn) as Hb.
       destruct (lookup k kv) as [x|] eqn:El.
       * destruct (Hval k p x Hinp El) as [Hnn _]. exact (Hb Hnn).
       * exact Hb.
     + rewrite (gen_num_leaf f self _ p Hl) in Hgen. inversion Hgen; subst ty bp.
-      pose proof (num_field fd fv (s_con s) self fname k p kv Hl Hfn) as Hb.
+      pose proof (num_field fd (S fv) (s_con s) self fname k p kv Hl Hfn) as Hb.
       destruct (lookup k kv) as [x|] eqn:El.
       * destruct (Hval k p x Hinp El) as [Hnn _]. exact (Hb Hnn).
+      * exact Hb.
+    + destruct (gen_arr_leaf f self _ p ty bp Hl Hgen) as [-> ->].
+      pose proof (arr_field fd fv (s_con s) self fname k p kv Hl Hfn) as Hb.
+      destruct (lookup k kv) as [x|] eqn:El.
+      * destruct (Hval k p x Hinp El) as [Hnn [_ [_ Har]]]. exact (Hb Hnn (Har Hl)).
       * exact Hb.
     + exact (Hother fname k p ty bp Hin Hinp Hoth Hfn Hgen).
 Qed.
@@ -218,7 +325,7 @@ Proof.
     cbn [fuelG fuelD fuelV] in *.
     apply (level_with_leaves a b c self sub s scope t bb kv (fun _ => False)); try assumption.
     + intros k p Hin. destruct (Hprops k p Hin) as [Hl|[]]. left; exact Hl.
-    + intros k p x Hin Hl. destruct (Hval k p x Hin Hl) as (H1 & H2 & H3 & _). split; [exact H1|split; [exact H2|exact H3]].
+    + intros k p x Hin Hl. destruct (Hval k p x Hin Hl) as (H1 & H2 & H3 & H4 & _). split; [exact H1|split; [exact H2|split; [exact H3|exact H4]]].
     + intros fname k p ty bp _ _ [].
   - (* depth m+1 *)
     cbn [sobj] in Hs. destruct Hs as (Hp & Hty & Ha & Haf & Np & Hreq & Nn & Hne & Hprops).
@@ -226,15 +333,15 @@ Proof.
     cbn [fuelG fuelD fuelV] in *.
     destruct (fuelD_SS m b) as [fd' Hfd]. destruct (fuelV_S m c) as [fv' Hfv]. rewrite Hfd, Hfv.
     apply (level_with_leaves (fuelG m a) (S fd') fv' self sub s scope t bb kv (sobj m)); try assumption.
-    + intros k p x Hin Hl. destruct (Hval k p x Hin Hl) as (H1 & H2 & H3 & _). split; [exact H1|split; [exact H2|exact H3]].
+    + intros k p x Hin Hl. destruct (Hval k p x Hin Hl) as (H1 & H2 & H3 & H4 & _). split; [exact H1|split; [exact H2|split; [exact H3|exact H4]]].
     + (* a nested object: one level down *)
       intros fname k p ty bp Hin Hinp Hnest Hfn Hgen.
       destruct (Hprops k p Hinp) as [Hl|[_ Hdn]].
       { (* a property that is both a leaf and an object cannot exist: its type list would be two things *)
         exfalso. destruct m as [|m']; cbn [sobj] in Hnest; destruct Hnest as (_ & Pty & _);
-          destruct Hl as [Hl|[Hl|[Hl|Hl]]];
-          [destruct Hl as (c0 & -> & Ht & _)|destruct Hl as (c0 & m0 & -> & Ht & _)|destruct Hl as (c0 & -> & Ht & _)|destruct Hl as (c0 & -> & Ht & _)
-          |destruct Hl as (c0 & -> & Ht & _)|destruct Hl as (c0 & m0 & -> & Ht & _)|destruct Hl as (c0 & -> & Ht & _)|destruct Hl as (c0 & -> & Ht & _)];
+          destruct Hl as [Hl|[Hl|[Hl|[Hl|Hl]]]];
+          [destruct Hl as (c0 & -> & Ht & _)|destruct Hl as (c0 & m0 & -> & Ht & _)|destruct Hl as (c0 & -> & Ht & _)|destruct Hl as (c0 & -> & Ht & _)|destruct Hl as (c0 & it0 & -> & Ht & _)
+          |destruct Hl as (c0 & -> & Ht & _)|destruct Hl as (c0 & m0 & -> & Ht & _)|destruct Hl as (c0 & -> & Ht & _)|destruct Hl as (c0 & -> & Ht & _)|destruct Hl as (c0 & it0 & -> & Ht & _)];
           cbn [s_con] in Pty; rewrite Ht in Pty; discriminate. }
       pose proof Hnest as Hn0.
       assert (Pfacts : plain_object p /\ c_types (s_con p) = [SObject] /\ s_addl p = None).
@@ -246,7 +353,7 @@ Proof.
       { destruct m as [|m']; cbn [fuelG] in Hgen; exact (declared_struct_shape _ self false p (scope ++ fname) ty bp Pp Pa Hgen). }
       destruct Hshape as (fs & plan & ->).
       destruct (lookup k kv) as [x|] eqn:El; [|intros Hm; apply nested_field_absent; assumption].
-      destruct (Hval k p x Hinp El) as (Hnn & _ & _ & Hdeep).
+      destruct (Hval k p x Hinp El) as (Hnn & _ & _ & _ & Hdeep).
       rewrite <- Hfd, <- Hfv.
       rewrite (nested_field_present _ (s_con s) self fname k p _ fs plan bp kv x Hdn Hfn El Hnn).
       destruct x as [| | | | |kv']; try contradiction;
@@ -296,15 +403,20 @@ Lemma ex_dok kv : NoDup (map fst kv) ->
      NoDup (map fst kv') /\ forall k' x', lookup k' kv' = Some x' -> x' <> JNull /\ (forall s0, x' = JStr s0 -> utf8_len s0 = length s0)) ->
   dok (fun s => s) 1 ex_outer kv.
 Proof.
+  assert (Hnoint : forall k p, In (k, p) (s_props ex_outer) \/ In (k, p) (s_props ex_inner) -> ~ int_leaf p).
+  { intros k p Hin (c & m & E & Ht & _). subst p. unfold ex_outer, ex_inner, LevelP.ex_schema, ex_leaf in Hin. cbn [s_props] in Hin.
+    destruct Hin as [[Hin|[Hin|[]]]|[Hin|[Hin|[]]]]; inversion Hin; subst; discriminate. }
+  assert (Hnoarr : forall k p, In (k, p) (s_props ex_outer) \/ In (k, p) (s_props ex_inner) -> ~ arr_leaf p).
+  { intros k p Hin (c & it & E & Ht & _). subst p. unfold ex_outer, ex_inner, LevelP.ex_schema, ex_leaf in Hin. cbn [s_props] in Hin.
+    destruct Hin as [[Hin|[Hin|[]]]|[Hin|[Hin|[]]]]; inversion Hin. }
   intros Nk H. cbn [dok]. split; [exact Nk|]. intros k p x Hin Hl. destruct (H k x Hl) as (H1 & H2 & H3).
-  split; [exact H1|]. split; [intros _; exact H2|]. split.
-  - intros (c & m & E & Ht & _). subst p. unfold ex_inner, LevelP.ex_schema, ex_leaf in Hin.
-    destruct Hin as [Hin|[Hin|[]]]; inversion Hin; subst; discriminate.
-  - intros kv' -> _. destruct (H3 kv' eq_refl) as [Nk' H']. split; [exact Nk'|]. intros k' p' x' Hin' Hl'. destruct (H' k' x' Hl') as (G1 & G2).
-    split; [exact G1|]. split; [intros _; exact G2|]. split; [|exact I].
-    intros (c & m & E & Ht & _). subst p'. destruct Hin as [Hin|[Hin|[]]]; inversion Hin; subst p.
-    + unfold ex_inner, LevelP.ex_schema, ex_leaf in Hin'. cbn [s_props] in Hin'. destruct Hin' as [Hin'|[Hin'|[]]]; inversion Hin'; subst; discriminate.
-    + destruct Hin'.
+  split; [exact H1|]. split; [intros _; exact H2|]. split; [intros Hi; exfalso; exact (Hnoint k p (or_introl Hin) Hi)|].
+  split; [intros Hi; exfalso; exact (Hnoarr k p (or_introl Hin) Hi)|].
+  intros kv' -> _. destruct (H3 kv' eq_refl) as [Nk' H']. split; [exact Nk'|]. intros k' p' x' Hin' Hl'. destruct (H' k' x' Hl') as (G1 & G2).
+  assert (Hin2 : In (k', p') (s_props ex_inner)).
+  { destruct Hin as [Hin|[Hin|[]]]; inversion Hin; subst p; [exact Hin'|destruct Hin']. }
+  split; [exact G1|]. split; [intros _; exact G2|]. split; [intros Hi; exfalso; exact (Hnoint k' p' (or_intror Hin2) Hi)|].
+  split; [intros Hi; exfalso; exact (Hnoarr k' p' (or_intror Hin2) Hi)|exact I].
 Qed.
 
 Example nested_inhabited :
@@ -327,4 +439,59 @@ Proof.
     intros k x Hl. vm_compute in Hl. repeat (match type of Hl with (if ?c then _ else _) = _ => destruct c end); inversion Hl; subst; (split; [discriminate|]); (split; [intros s0 E; inversion E; reflexivity|]); intros kv' E; inversion E; subst.
     split; [repeat constructor; cbn; intuition discriminate|]. intros k' x' Hl'. vm_compute in Hl'.
     repeat (match type of Hl' with (if ?c then _ else _) = _ => destruct c end); inversion Hl'; subst; (split; [discriminate|]); intros s0 E'; inversion E'; reflexivity.
+Qed.
+
+(* ---------- non-vacuity of the array and number leaves: {tags: [string] with 1..2 items (required), w: number >= 0.5} ---------- *)
+Definition ex_str_item : schema := Sch (mkC [SString] None None [] 0 0 0 0 None None (mkBounds None None None None) None None) [] None false None [] [].
+Definition ex_tags : schema := Sch (mkC [SArray] None None [] 1 2 0 0 None None (mkBounds None None None None) None None) [] None false (Some ex_str_item) [] [].
+Definition ex_w : schema := Sch (mkC [SNumber] None None [] 0 0 0 0 None None (mkBounds (Some (Qmake 1 2)) None None None) None None) [] None false None [] [].
+Definition ex_flat : schema :=
+  Sch (mkC [SObject] None None [[116]%N] 0 0 0 0 None None (mkBounds None None None None) None None)
+      [([116]%N, ex_tags); ([119]%N, ex_w)] None false None [] [].
+Definition ex_flat_ok : list (str * json) := [([116]%N, JArr [JStr [97]%N; JStr [98]%N]); ([119]%N, JQ (Qmake 3 4))].
+Definition ex_flat_long : list (str * json) := [([116]%N, JArr [JStr [97]%N; JStr [98]%N; JStr [99]%N])].     (* three items *)
+Definition ex_flat_low : list (str * json) := [([116]%N, JArr [JStr [97]%N]); ([119]%N, JQ (Qmake 1 4))].          (* w below the minimum *)
+
+Lemma ex_flat_sobj : sobj (fun s => s) 0 ex_flat.
+Proof.
+  cbn [sobj]. repeat split; try reflexivity; try discriminate.
+  - repeat constructor; cbn; intuition discriminate.
+  - intros k [H|[]]. subst. left; reflexivity.
+  - vm_compute. repeat constructor; cbn; intuition discriminate.
+  - intros fname kp H. vm_compute in H. destruct H as [H|[H|[]]]; inversion H; subst; discriminate.
+  - intros k p [H|[H|[]]]; inversion H; subst; left.
+    + right. right. right. right. exists (mkC [SArray] None None [] 1 2 0 0 None None (mkBounds None None None None) None None), ex_str_item.
+      repeat split; try reflexivity. eexists. repeat split; reflexivity.
+    + right. right. right. left. eexists. repeat split; reflexivity.
+Qed.
+
+Lemma ex_flat_dok kv : NoDup (map fst kv) ->
+  (forall k x, lookup k kv = Some x -> x <> JNull /\ (forall l y, x = JArr l -> In y l -> y <> JNull)) ->
+  dok (fun s => s) 0 ex_flat kv.
+Proof.
+  intros Nk H. cbn [dok]. split; [exact Nk|]. intros k p x Hin Hl. destruct (H k x Hl) as (H1 & H2).
+  assert (Hp : p = ex_tags \/ p = ex_w) by (destruct Hin as [Hin|[Hin|[]]]; inversion Hin; auto).
+  split; [exact H1|]. split.
+  - intros (c & E & Ht & _). destruct Hp as [-> | ->]; inversion E; subst c; discriminate.
+  - split.
+    + intros (c & m & E & Ht & _). destruct Hp as [-> | ->]; inversion E; subst c; discriminate.
+    + split; [|exact I]. intros _ l E y Hy. exact (H2 l y E Hy).
+Qed.
+
+Example flat_inhabited :
+  exists t b, Gen.gen (fun s => s) (mkCfg false false) [] (fuelG 0 1) MDeclared None false ex_flat [82]%N = Done (t, b) /\
+    (forall kv, In kv [ex_flat_ok; ex_flat_long; ex_flat_low] ->
+       is_ok (Exec.dec (fun _ _ => true) [] (fuelD 0 0) t (JObj kv)) = Valid.valid (fun _ _ => true) [] (fuelV 0 0) ex_flat (JObj kv)) /\
+    map (fun kv => Valid.valid (fun _ _ => true) [] (fuelV 0 0) ex_flat (JObj kv)) [ex_flat_ok; ex_flat_long; ex_flat_low] = [true; false; false].
+Proof.
+  eexists. eexists. split; [vm_compute; reflexivity|].
+  assert (Hgen : Gen.gen (fun s => s) (mkCfg false false) [] (fuelG 0 1) MDeclared None false ex_flat [82]%N = Done _) by (vm_compute; reflexivity).
+  split; [|vm_compute; reflexivity].
+  intros kv Hkv.
+  eapply (nested_object_exact (fun s => s) (mkCfg false false) [] (fun _ _ => true) [] [] eq_refl eq_refl 0 1 0 0 None false ex_flat [82]%N _ _ kv); [discriminate|exact ex_flat_sobj| |exact Hgen].
+  apply ex_flat_dok.
+  - destruct Hkv as [<-|[<-|[<-|[]]]]; repeat constructor; cbn; intuition discriminate.
+  - intros k x Hl. destruct Hkv as [<-|[<-|[<-|[]]]]; vm_compute in Hl;
+      repeat (match type of Hl with (if ?c then _ else _) = _ => destruct c end); inversion Hl; subst;
+      (split; [discriminate|]); intros l y E Hy; inversion E; subst; cbn in Hy; intuition (subst; discriminate).
 Qed.
